@@ -61,10 +61,15 @@ TRIPLE = ["+", "-", "*", "/", "%", "<", ">", "=", "!", "&", "|", "^", ".", "..."
 # pragma lines as members of the token stream (own line, pinned by the layout
 # model): plain, bare, with blanks / tabs between '#' and the word, indented
 PRAGMA_TOKENS = ["#pragma x", "#pragma", "# pragma once", "#\tpragma pack(1)",
-                 "  #pragma y", " \t# \tpragma z w", "#  pragma"]
+                 "  #pragma y", " \t# \tpragma z w", "#  pragma",
+                 # trailing blanks belong to the PPPRAGMASTR value; blanks only
+                 # after the word: no PPPRAGMASTR
+                 "#pragma x  ", "#pragma x\t", "#pragma  x y \t ", "#pragma \t"]
 
-SEPARATORS_QUICK = ["", " ", "\n", "\t"]
-SEPARATORS_THOROUGH = ["", " ", "\n", "\t", "  ", " \n  ", "\n\n"]
+# incl. whitespace-only lines (a line of blanks counts as exactly one line)
+BLANK_LINE_SEPARATORS = ["\n  \n", "\n\t\n ", " \n \t \n\n  "]
+SEPARATORS_QUICK = ["", " ", "\n", "\t"] + BLANK_LINE_SEPARATORS
+SEPARATORS_THOROUGH = ["", " ", "\n", "\t", "  ", " \n  ", "\n\n"] + BLANK_LINE_SEPARATORS
 SEPARATORS_TRIPLE = ["", " ", "\n"]
 
 # CharEx alphabet for the progress / no-silent-skip part of C09 (20 characters)
